@@ -1,4 +1,4 @@
-CONSTANTS MaxLen = 4
+CONSTANTS MaxLen = 4 MaxLenK = 3 MaxLines = 4 MaxDepth = 3
 INIT MInit
 NEXT MNext
 INVARIANTS MonitorOK Emit
